@@ -239,6 +239,19 @@ def uses_document(xsl):
         return False
 
 
+CONTAINER_FRAMES = ("XalanVector::", "XalanList::", "XalanMap::", "XalanDeque::", "XalanDOMString::", "XalanSet::",
+                    "ArenaAllocator::", "ReusableArenaAllocator::", "ArenaBlock", "ReusableArenaBlock", "XalanAllocator::",
+                    "XalanConstruct", "XalanAllocationGuard", "XalanMemMgrAutoPtr", "XalanArrayAllocator::", "std::")
+
+
+def norm_frames(sig, n):
+    """the n innermost frames that are not internals of the containers / string / arena templates (whether those
+    appear as frames of their own depends on the compiler's inlining, so they must not be part of a key)"""
+    frames = (sig or "-").split("<")
+    keep = [f for f in frames if not f.startswith(CONTAINER_FRAMES) or "::~" in f]
+    return (keep or frames)[:n]
+
+
 def site_key(rec, xsl=None, mode="single"):
     """Stable name of a non-contained outcome: the kind of outcome + the innermost frames of the refused
     allocation (+ the innermost destructor frame when the allocation was made inside a destructor).  No line
@@ -248,18 +261,21 @@ def site_key(rec, xsl=None, mode="single"):
     sig, dtor = rec.get("sig") or "-", rec.get("dtor") or "-"
     if mode == "persist" and oc == "terminate" and (rec.get("lsig") or "-") != "-":
         sig, dtor = rec.get("lsig"), rec.get("ldtor") or "-"
-    frames = sig.split("<")
     if oc in ("clean", "notreached"):
-        return "after-bad@" + "<".join(frames[:2])
+        return "after-bad@" + "<".join(norm_frames(sig, 2))
     if oc == "terminate":
         if dtor != "-":
-            return "terminate@%s|%s" % (frames[0], dtor.split("<")[-1])
-        return "terminate@" + "<".join(frames[:2])
+            return "terminate@%s|%s" % (norm_frames(sig, 1)[0], dtor.split("<")[-1])
+        return "terminate@" + "<".join(norm_frames(sig, 2))
     if oc == "swallowed":
-        return "swallowed:%s@%s" % (rec.get("out"), "document()" if (xsl and uses_document(xsl)) else "<".join(frames[:2]))
+        return "swallowed:%s@%s" % (rec.get("out"), "document()" if (xsl and uses_document(xsl)) else "<".join(norm_frames(sig, 2)))
     if oc.split(":")[0] in CRASHES:
-        return "crash@" + "<".join(frames[:4])
-    return "%s@%s" % (oc, "<".join(frames[:2]))
+        return "crash@" + "<".join(norm_frames(sig, 3))
+    return "%s@%s" % (oc, "<".join(norm_frames(sig, 2)))
+
+
+def handler_key(hs):
+    return "handler@" + "<".join(norm_frames(hs[6:], 2))
 
 
 def load_sites():
@@ -332,7 +348,7 @@ def check(ctx, known, widen=False, exe=None):
             new.append({"case": replay_line(scenario, xsl, xml, "count", 0), "what": "unexpected API status %s" % c.get("status")})
         for hs in c.get("handler_sigs", []):
             if hs.startswith("catch:"):
-                key = "handler@" + "<".join(hs[6:].split("<")[:3])
+                key = handler_key(hs)
                 if key not in sites:
                     handler_new.add(key)
         ks = ks_of(c["N"])
@@ -431,7 +447,7 @@ def regen_sites(out=None):
         c = count(exe, scenario, xsl, xml)
         for hs in c.get("handler_sigs", []):
             if hs.startswith("catch:"):
-                res.setdefault("handler@" + "<".join(hs[6:].split("<")[:3]), (scenario, os.path.basename(xsl), mode, 0, hs))
+                res.setdefault(handler_key(hs), (scenario, os.path.basename(xsl), mode, 0, hs))
         for r in sweep(exe, scenario, xsl, xml, range(1, c["N"] + 1), mode=mode):
             if classify(r)[0] != "ok":
                 res.setdefault(site_key(r, xsl, mode), (scenario, os.path.basename(xsl), mode, r["k"], r.get("sig")))
